@@ -100,6 +100,9 @@ def gen(rng, tier):
                 if ch == " ":
                     continue
                 bad.append((base[:pos] + ch + base[pos + 1:]).encode())
+    from vlib.core import substitute_lookalikes
+    for base in ("4a4b", "0x4a4b", "AbCdEf0123456789"):
+        bad += [v.encode() for v in substitute_lookalikes(base, 2 if base.startswith("0x") else 0, 4)]
     bad += [b"0x+a", b"+a", b"0x4a+b", b"4a +B", b"0x++", b"+0x4a", b"0x-a", b"0x_a", b"0x+4", b"0x4+"]
     for b in bad:
         cases.append(Case("cli.hex_decode " + hx(b), tags=("dec", "malformed"), runner="cli"))
